@@ -320,7 +320,25 @@ fn run_full(r: &Req) -> String {
 fn run_twice(r: &Req) -> String {
     let (p, st) = (parse_prob(r), Sets::parse(r));
     let mut solver = new_solver(&p, &st);
+    // the norm caches `data.normq` / `data.normb` BEFORE the first solve (request field `cm`):
+    // 0 as `new` left them, 1 both cleared (as after accepted `update_q` + `update_b`), 2 / 3 one of them
+    // cleared, 4 both holding the STALE values `cqv`, `cbv` (as after a rejected partial update).
+    // `DefaultInfo::update` calls `get_normq()` / `get_normb()` in every pass, which fill a cleared cache
+    // and keep a filled one: the caches after each solve are part of the response.
+    let cm = if r.has("cm") { r.u("cm") } else { 0 };
+    {
+        let (q0, b0) = verif_problemdata::norms(&solver.data);
+        match cm {
+            1 => verif_problemdata::set_norms(&mut solver.data, None, None),
+            2 => verif_problemdata::set_norms(&mut solver.data, None, b0),
+            3 => verif_problemdata::set_norms(&mut solver.data, q0, None),
+            4 => verif_problemdata::set_norms(&mut solver.data, Some(r.f("cqv")), Some(r.f("cbv"))),
+            _ => {}
+        }
+    }
+    let (nq0, nb0) = verif_problemdata::norms(&solver.data);
     solver.solve();
+    let (nq1, nb1) = verif_problemdata::norms(&solver.data);
     let f = &solver.solution;
     let (st1, it1, x1, s1, z1) = (f.status as usize, f.iterations, f.x.clone(), f.s.clone(), f.z.clone());
     let sc1 = [f.obj_val, f.obj_val_dual, f.r_prim, f.r_dual];
@@ -332,7 +350,11 @@ fn run_twice(r: &Req) -> String {
         && bits_eq(&s1, &g.s)
         && bits_eq(&z1, &g.z)
         && bits_eq(&sc1, &[g.obj_val, g.obj_val_dual, g.r_prim, g.r_dual]);
-    format!("{} status1={} iterations1={} x1={} s1={} z1={} same={}", out, st1, it1, ffs(&x1), ffs(&s1), ffs(&z1), same as usize)
+    let nn = |v: Option<f64>| ff(v.unwrap_or(f64::NAN));
+    format!(
+        "{} status1={} iterations1={} x1={} s1={} z1={} same={} nq0={} nb0={} nq1={} nb1={}",
+        out, st1, it1, ffs(&x1), ffs(&s1), ffs(&z1), same as usize, nn(nq0), nn(nb0), nn(nq1), nn(nb1)
+    )
 }
 
 /// run `solve()` under the observer and render every pass + the returned solution
@@ -448,6 +470,10 @@ fn observe_solve(solver: &mut DefaultSolver<f64>) -> String {
     kv("perm", fus(&perm));
     kv("prov", prov.to_string());
     kv("rb", (rollback as usize).to_string());
+    // the norm caches of the problem data after this solve (`get_normq` / `get_normb` filled them)
+    let (nq, nb) = verif_problemdata::norms(&solver.data);
+    kv("nq", ff(nq.unwrap_or(f64::NAN)));
+    kv("nb", ff(nb.unwrap_or(f64::NAN)));
     let _ = fis::<usize>;
     out
 }
@@ -803,7 +829,17 @@ fn submit_all(s: &mut Session, p: &Prob, st: &Sets, stages: bool) {
             s.submit(line.replacen("solve.full", "solve.init", 1));
         }
         {
-            let out2 = s.submit(line.replacen("solve.full", "solve.twice", 1));
+            // the state of the two norm caches before the first solve (see `run_twice`)
+            let cm = [0usize, 0, 1, 1, 2, 3, 4, 4][s.rng.below(8)];
+            let (cqv, cbv) = (val(&mut s.rng, false).abs(), val(&mut s.rng, false).abs());
+            let out2 = s.submit(format!(
+                "{} cm={} cqv={} cbv={}",
+                line.replacen("solve.full", "solve.twice", 1),
+                cm,
+                ff(cqv),
+                ff(cbv)
+            ));
+            s.count(&format!("twice:caches-mode-{}", cm));
             if let Some(r) = Req::parse(&format!("o {}", out2)) {
                 if r.has("same") {
                     s.count(if r.u("same") == 1 { "twice:bit-identical" } else { "twice:differs" });
